@@ -1,11 +1,172 @@
-import CffiVerif.Model.Layout
-import CffiVerif.Spec.GccLayout
+import CffiVerif.Proofs.LayoutInside
+import CffiVerif.Proofs.LayoutFlags
+
+/-!
+C01 — ABI-mode struct and union layout equals the C compiler's layout.
+
+`Layout.layoutCffi` is the transcription of `b_complete_struct_or_union_lock_held`
+(x86-64 gcc flags), `GccLayout.layout` the independent specification of the
+SysV/GCC layout on one bit cursor.  `Layout.WFTy` is the class of declarations of
+the property (`Proofs/LayoutNested.lean`), `Layout.canon` reads a `CFieldObject`
+as "member starts at bit `8·cf_offset + cf_bitshift`, bit-field width `cf_bitsize`".
+For a non-bit-field `canon` compares `8·cf_offset` with the compiler's bit
+position, i.e. the `offsetof`s; for a named bit-field it compares the interval of
+bits it occupies.
+
+Full statement of the property (FALSE on the unchanged code, see
+`layout_eq_gcc_fails_on_empty_struct`; finding class C01/zero-size-aggregate):
+
+    theorem layout_eq_gcc (d) (hw : WFTy d) (hagg : d = .agg u p fs) :
+      ∃ l, layoutCffi d = .ok l ∧ l.size = (layout d).size ∧ l.align = (layout d).align ∧
+           l.fields.map canon = (layout d).fields
+
+It is proved below under the extra hypothesis `NZTy d` (no aggregate in `d`, `d`
+included, has compiler size 0) as `layout_eq_gcc_partial`, and
+`layout_eq_gcc_up_to_empty` shows that for the outermost aggregate the *only*
+deviation is "size 0 becomes 1".
+-/
 namespace CffiVerif.C01
 open CffiVerif.Layout CffiVerif.GccLayout
 
-/-- the known finding: an empty struct has size 1 in cffi and 0 in gcc -/
-theorem zero_size_witness :
+/-- For every well-formed declaration (any number of members, any nesting) in
+which no *nested* aggregate is empty-sized, cffi accepts it and computes the
+compiler's alignment and member positions; its size is the compiler's, except
+that a compiler size of 0 becomes 1. -/
+theorem layout_eq_gcc_up_to_empty (u : Bool) (p : Nat) (fs : Fields)
+    (hw : WFTy (.agg u p fs)) (hz : NZFields fs) :
+    ∃ l, layoutCffi (.agg u p fs) = .ok l ∧
+      l.align = (layout (.agg u p fs)).align ∧
+      l.fields.map canon = (layout (.agg u p fs)).fields ∧
+      l.size = (if (layout (.agg u p fs)).size = 0 then 1 else (layout (.agg u p fs)).size) := by
+  rw [WFTy] at hw
+  obtain ⟨cs, hcs, hwl, hr⟩ := fields_ok p fs hw.2
+  obtain ⟨l, hl, hal, hfl, hsz, _⟩ := flat_eq u p cs hw.1 hwl
+  rw [hr hz] at hal hfl hsz
+  exact ⟨l, by simp only [layoutCffi, hcs, hl], hal, hfl, hsz⟩
+
+/-- **Layout equals the compiler's** (sizes, alignment, offsets of non-bit-field
+members, bit intervals of named bit-fields), for every well-formed declaration
+without zero-size aggregates, by induction over the member list (simulation
+relation `Layout.R`) and over nesting. -/
+theorem layout_eq_gcc_partial (u : Bool) (p : Nat) (fs : Fields)
+    (hw : WFTy (.agg u p fs)) (hz : NZTy (.agg u p fs)) :
+    ∃ l, layoutCffi (.agg u p fs) = .ok l ∧
+      l.size = (layout (.agg u p fs)).size ∧
+      l.align = (layout (.agg u p fs)).align ∧
+      l.fields.map canon = (layout (.agg u p fs)).fields := by
+  rw [NZTy] at hz
+  obtain ⟨l, hl, hal, hfl, hsz⟩ := layout_eq_gcc_up_to_empty u p fs hw hz.1
+  have : (layout (.agg u p fs)).size ≠ 0 := by omega
+  simp only [this, if_false] at hsz
+  exact ⟨l, hl, hsz, hal, hfl⟩
+
+/-- The hypothesis `NZTy` cannot be dropped: `struct {}` is well-formed, cffi gives
+it size 1, the compiler size 0. -/
+theorem layout_eq_gcc_fails_on_empty_struct :
+    WFTy (.agg false 0 .nil) ∧
     layoutCffi (.agg false 0 .nil) = .ok ⟨1, 1, []⟩ ∧ (layout (.agg false 0 .nil)).size = 0 := by
-  exact ⟨rfl, rfl⟩
+  refine ⟨?_, rfl, rfl⟩
+  rw [WFTy, WFFields]; exact ⟨Or.inl rfl, trivial⟩
+
+/-- **No declaration of the class is rejected** (zero-size aggregates included). -/
+theorem never_rejected (u : Bool) (p : Nat) (fs : Fields) (hw : WFTy (.agg u p fs)) :
+    ∃ l, layoutCffi (.agg u p fs) = .ok l := by
+  rw [WFTy] at hw
+  obtain ⟨cs, hcs, hwl, _⟩ := fields_ok p fs hw.2
+  obtain ⟨l, hl, _⟩ := flat_eq u p cs hw.1 hwl
+  exact ⟨l, by simp only [layoutCffi, hcs, hl]⟩
+
+/-- **The storage cffi reads and writes lies inside the object**: for every
+`CFieldObject` (members of anonymous aggregates included) `cf_offset +
+sizeof(cf_type) ≤ ct_size`, and a bit-field's bits lie inside that unit:
+`cf_bitshift + cf_bitsize ≤ 8·sizeof(cf_type)`. -/
+theorem unit_inside (u : Bool) (p : Nat) (fs : Fields) (hw : WFTy (.agg u p fs)) (l : CLayout)
+    (h : layoutCffi (.agg u p fs) = .ok l) :
+    ∀ c ∈ l.fields, ∀ n, c.fsize = some n →
+      c.offset + n ≤ l.size ∧ ∀ sh w, c.bits = some (sh, w) → sh + w ≤ 8 * n := by
+  rw [WFTy] at hw
+  obtain ⟨cs, hcs, hwl, _⟩ := fields_ok p fs hw.2
+  simp only [layoutCffi, hcs] at h
+  exact complete_inside u p cs l hw.1 hwl (fields_inside p fs hw.2 cs hcs) h
+
+/-- `x & ~(a-1)` on 64-bit words is `x - x % a` when `a` is a power of two: the
+arithmetic reading of the masks used by `Model/Layout.lean` (`alignDown`). -/
+theorem andnot_eq_alignDown (x : BitVec 64) (k : Nat) (hk : k < 64) :
+    x &&& ~~~(BitVec.twoPow 64 k - 1) = x - x % BitVec.twoPow 64 k :=
+  andnot_mask_eq x k hk
+
+/-- The model with *all* `sflags` branches (MSVC / ARM bit-field styles, big endian; exercised by the
+correspondence through `_cffi_backend.complete_struct_or_union(..., sflags, pack)`) coincides, for the
+flags selected on this platform, with the model the theorems above are about. -/
+theorem flags_model_specialises (fl : LayoutFlags.Flags)
+    (h1 : fl.msvc = false) (h2 : fl.arm = false) (h3 : fl.bigEndian = false) (t : Ty) :
+    LayoutFlags.layoutFlags fl t = Except.map LayoutFlags.liftL (layoutCffi t) :=
+  LayoutFlags.layoutFlags_x86 fl ⟨h1, h2, h3⟩ t
+
+/-! ### the error branches: what the loop rejects outside the class -/
+
+/-- a bit-field wider than its type, a named `:0`, a bit-field of a non-integer
+type, and a member of unknown size that is not a trailing array are rejected with
+`TypeError`, whatever the state of the loop. -/
+theorem rejected_outside_class (u : Bool) (pack : Nat) (sfp last : Bool) (s : St) (f : FField CField) :
+    (∀ w sz, f.bits = some w → f.size = some sz → 8 * sz < w → stepC u pack sfp last s f = .error .typeError) ∧
+    (f.bits = some 0 → f.named = true → stepC u pack sfp last s f = .error .typeError) ∧
+    (∀ w, f.bits = some w → f.intlike = false → stepC u pack sfp last s f = .error .typeError) ∧
+    (f.size = none → (f.isArray && f.bits.isNone && last) = false →
+      stepC u pack sfp last s f = .error .typeError) := by
+  refine ⟨?_, ?_, ?_, ?_⟩
+  · intro w sz hb hs hw
+    have : w > 8 * sz := hw
+    simp [stepC, hb, hs, this]
+  · intro hb hn
+    cases hs : f.size <;> cases hi : f.intlike <;> simp [stepC, hb, hn, hs, hi]
+  · intro w hb hi
+    cases hs : f.size <;> simp [stepC, hb, hi, hs]
+  · intro hs hl
+    simp [stepC, hs, hl]
+
+/-! ### non-vacuity -/
+
+/-- `struct { char a; int b : 3; unsigned : 0; long long c : 40; struct { short d; _Bool e : 1; };
+            union { double x; char y[3]; } f[2]; int g[]; }` -/
+def exDecl : Ty :=
+  .agg false 0 <|
+    .cons true none false (.prim 1 1 true) <|
+    .cons true (some 3) false (.prim 4 4 true) <|
+    .cons false (some 0) false (.prim 4 4 true) <|
+    .cons true (some 40) false (.prim 8 8 true) <|
+    .cons false none false (.agg false 0 <|
+        .cons true none false (.prim 2 2 true) <|
+        .cons true (some 1) false (.prim 1 1 true) .nil) <|
+    .cons true none false (.arr (.agg true 0 <|
+        .cons true none false (.prim 8 8 false) <|
+        .cons true none false (.arr (.prim 1 1 true) 3) .nil) 2) <|
+    .cons true none true (.prim 4 4 true) .nil
+
+/-- `#pragma pack(2) struct { char a; double b; long double c; }` -/
+def exPacked : Ty :=
+  .agg false 2 <|
+    .cons true none false (.prim 1 1 true) <|
+    .cons true none false (.prim 8 8 false) <|
+    .cons true none false (.prim 16 16 false) .nil
+
+example : WFTy exDecl := by
+  simp [exDecl, WFTy, WFFields, A16, PackOK]
+  refine ⟨⟨⟨?_, ?_⟩, ?_⟩, ?_⟩ <;> refine ⟨_, _, ⟨rfl, rfl⟩, ?_⟩ <;> omega
+example : NZTy exDecl := by
+  simp only [exDecl, NZTy, NZFields, true_and, and_true]
+  decide
+example : WFTy exPacked := by
+  simp only [exPacked, WFTy, WFFields, A16, PackOK]
+  simp
+  exact ⟨1, rfl⟩
+example : NZTy exPacked := by
+  simp only [exPacked, NZTy, NZFields, true_and, and_true]
+  decide
+-- the conclusion of `layout_eq_gcc_partial` at the example, computed:
+example : layoutCffi exDecl = .ok ⟨40, 8,
+    [⟨0, none, some 1⟩, ⟨0, some (8, 3), some 4⟩, ⟨8, some (0, 40), some 8⟩, ⟨14, none, some 2⟩,
+     ⟨16, some (0, 1), some 1⟩, ⟨24, none, some 16⟩, ⟨40, none, none⟩]⟩ := by rfl
+example : layoutCffi exPacked = .ok ⟨26, 2, [⟨0, none, some 1⟩, ⟨2, none, some 8⟩, ⟨10, none, some 16⟩]⟩ := by rfl
 
 end CffiVerif.C01
